@@ -556,7 +556,7 @@ enum cc_stat cc_tsttable_iter_next (CC_TSTTableIter *iter, CC_TSTTableEntry **ou
             iter->previous_node = NULL;
             return CC_ITER_END;
 
-        } else if (node->eow) {
+        } else if (node->eow && previous_node == node->parent) {
             *out                = node->data;
             iter->current_node  = node;
             iter->next_node     = next_node;
